@@ -25,7 +25,7 @@ type c13Case struct {
 	Stagger   []int  `json:"call_stagger_us"`
 }
 
-var c13Faults = []string{"before_join", "close_with_queued", "close_on_command", "slow_write_callback", "close_at_timeout", "duplicate_key"}
+var c13Faults = []string{"before_join", "close_with_queued", "close_on_command", "slow_write_callback", "close_at_timeout", "duplicate_key", "manager_lag"}
 
 func genC13(t *rapid.T) c13Case {
 	c := c13Case{Fault: rapid.SampledFrom(c13Faults).Draw(t, "fault"), Q: rapid.IntRange(0, 6).Draw(t, "q"),
@@ -38,6 +38,12 @@ func genC13(t *rapid.T) c13Case {
 	}
 	if c.Fault == "slow_write_callback" {
 		c.WriteHold = rapid.SampledFrom([]int{2000, 20000}).Draw(t, "write_hold")
+	}
+	if c.Fault == "manager_lag" {
+		// another terminal's writer is slow (30 ms per write callback) and its 3-slot command queue is full, so the
+		// session manager lags behind while the victim's commands and then its leave are queued
+		c.WriteHold = 30000
+		c.Q = max(c.Q, 2)
 	}
 	for i := 0; i < c.Q; i++ {
 		c.TimeoutMs = append(c.TimeoutMs, rapid.SampledFrom([]int{20, 50, 120, 400, 1000}).Draw(t, "timeout"))
@@ -85,14 +91,35 @@ func c13Scenario(c c13Case) Scenario {
 				Step{Op: "barrier", Barrier: "intruder_done", Parties: 2}, Step{Op: "close", Mode: c.CloseMode})
 		}
 	}
+	if c.Fault == "manager_lag" {
+		ts = []Step{{Op: "dial"}, {Op: "respond", Rules: []Rule{rule}}, {Op: "write", Hex: hb(victim, 1)}, {Op: "wait_frames", N: 1, DeadlineMs: 5000},
+			{Op: "barrier", Barrier: "joined", Parties: 3}, {Op: "barrier", Barrier: "go", Parties: 3}, {Op: "pause", PauseUs: 3000 + c.TermDelay}, {Op: "close", Mode: c.CloseMode}}
+	}
 	sc.Actors = append(sc.Actors, Actor{Name: "victim", Kind: "terminal", Steps: ts})
 	goParties := 2
+	busy := identity{Digits: "13800139003", V2019: c.V2019}
+	if c.Fault == "manager_lag" {
+		goParties = 3
+		sc.Actors = append(sc.Actors, Actor{Name: "busy", Kind: "terminal", Steps: []Step{{Op: "dial"}, {Op: "respond", Rules: []Rule{{Behaviour: "answer"}}},
+			{Op: "write", Hex: hb(busy, 1)}, {Op: "wait_frames", N: 1, DeadlineMs: 5000}, {Op: "barrier", Barrier: "joined", Parties: 3},
+			{Op: "barrier", Barrier: "go", Parties: 3}, {Op: "barrier", Barrier: "lag_over", Parties: 2}, {Op: "close", Mode: "fin"}}})
+	}
 	if c.Fault == "duplicate_key" {
 		goParties = 3
 		sc.Actors = append(sc.Actors, Actor{Name: "intruder", Kind: "terminal", Steps: []Step{{Op: "dial"}, {Op: "barrier", Barrier: "go", Parties: 3},
 			{Op: "pause", PauseUs: c.TermDelay}, {Op: "write", Hex: hb(victim, 900)}, {Op: "wait_eof", DeadlineMs: 3000}, {Op: "close", Mode: c.CloseMode}, {Op: "barrier", Barrier: "intruder_done", Parties: 2}}})
 	}
-	ps := []Step{{Op: "barrier", Barrier: "joined", Parties: 2}, {Op: "barrier", Barrier: "go", Parties: goParties}, {Op: "pause", PauseUs: c.PlatDelay}}
+	joinParties := 2
+	if c.Fault == "manager_lag" {
+		joinParties = 3
+	}
+	ps := []Step{{Op: "barrier", Barrier: "joined", Parties: joinParties}, {Op: "barrier", Barrier: "go", Parties: goParties}, {Op: "pause", PauseUs: c.PlatDelay}}
+	if c.Fault == "manager_lag" {
+		for i := 0; i < 6; i++ { // more than the slow terminal's writer and 3-slot queue absorb at once
+			ps = append(ps, Step{Op: "send", Key: busy.key(), Cmd: 0x8104, Body: []byte{0xb0, byte(i)}, TimeoutMs: 3000, Async: true, CallID: 200 + i})
+		}
+		ps = append(ps, Step{Op: "pause", PauseUs: 1000})
+	}
 	for i := 0; i < c.Q; i++ {
 		if c.Stagger[i] > 0 {
 			ps = append(ps, Step{Op: "pause", PauseUs: c.Stagger[i]})
@@ -100,6 +127,9 @@ func c13Scenario(c c13Case) Scenario {
 		ps = append(ps, Step{Op: "send", Key: victim.key(), Cmd: 0x8104, Body: []byte{byte(i + 1)}, TimeoutMs: c.TimeoutMs[i], Async: true, CallID: i + 1})
 	}
 	ps = append(ps, Step{Op: "join_calls", DeadlineMs: 3500})
+	if c.Fault == "manager_lag" {
+		ps = append(ps, Step{Op: "barrier", Barrier: "lag_over", Parties: 2})
+	}
 	if c.Fault == "duplicate_key" {
 		ps = append(ps, Step{Op: "barrier", Barrier: "calls_returned", Parties: 2})
 	}
@@ -126,6 +156,12 @@ func checkC13(c c13Case, _ *kit.Collector) kit.Result {
 			return res
 		case "child_timeout":
 			res.Err = fmt.Errorf("SOFT the scenario did not finish: %s", e.Note)
+			return res
+		}
+	}
+	for _, e := range h.Events {
+		if e.Kind == "calls_stranded" || e.Kind == "call_stranded" {
+			res.Err = fmt.Errorf("SOFT fault %q: %s", c.Fault, e.Note)
 			return res
 		}
 	}
